@@ -499,7 +499,7 @@ impl Scanner {
 
         let skipped = numlit.len();
         let int_part = &numlit[..fac_start];
-        let next1 = self.next_char(fac_start);
+        let next1 = self.next_char(skipped);
         if numlit.is_empty() {
             return Err(self.error_at(self.pos + skipped, "invalid radix point"));
         } else if radix != 10 && (int_part.len() == 2) && (fac_part.len() <= 1) {
